@@ -4,6 +4,7 @@ import (
 	"fmt"
 	"reflect"
 	"strings"
+	"unsafe"
 
 	ap "github.com/go-ap/activitypub"
 )
@@ -175,6 +176,19 @@ func c08Cell(fn toFn, src ap.Item, rep *Report, idx int) (obs string) {
 		if !reflect.DeepEqual(dv.Field(i).Interface(), sf.Interface()) {
 			fail("shared property "+f.Name+" reads through the view as on the original", fmt.Sprintf("%v vs %v", dv.Field(i).Interface(), sf.Interface()))
 		}
+		// the same Go type on both sides: two interface types with the same method set are still two types, and an
+		// interface value stored through the one and read through the other carries the other's method table - it
+		// prints and reflects alike, but `==` against a value of the field's own type and type assertions on it fail
+		if sf.Type() != f.Type {
+			fail("shared property "+f.Name+" has the same Go type in the view and in the original", fmt.Sprintf("%s in %s, %s in %s", f.Type, dv.Type().Name(), sf.Type(), sv.Type().Name()))
+		}
+		if f.Type.Kind() == reflect.Interface && f.Type.NumMethod() > 0 && !dv.Field(i).IsNil() && dv.Field(i).CanAddr() {
+			fresh := reflect.New(f.Type).Elem()
+			fresh.Set(dv.Field(i).Elem())
+			if got, want := *(*uintptr)(unsafe.Pointer(dv.Field(i).UnsafeAddr())), *(*uintptr)(unsafe.Pointer(fresh.UnsafeAddr())); got != want {
+				fail("shared property "+f.Name+" reads through the view exactly as on the original", fmt.Sprintf("the interface word read through the %s view is not one of type %s holding a %s: comparisons with == and type assertions on it fail", dv.Type().Name(), f.Type, dv.Field(i).Elem().Type()))
+			}
+		}
 	}
 	// writes through a view of a pointer are seen by the original; a view of a value is a copy
 	if reflect.ValueOf(src).Kind() == reflect.Pointer {
@@ -336,3 +350,51 @@ func runC08(seed int64, n int, tier string, outDir string) (*Report, error) {
 }
 
 func coqStr(s string) string { return `(B "` + s + `")` }
+
+// ifaceWordsBad walks a value (pointers to structs, struct fields, list members) and names every field of a non-empty
+// interface type whose stored interface word is not the one Go builds for that interface type and the value's dynamic
+// type - the trace a write through a view whose field is of ANOTHER interface type leaves behind.  On such a field
+// printing and reflection look right while `==` and type assertions fail.
+func ifaceWordsBad(x any) []string {
+	var out []string
+	seen := map[uintptr]bool{}
+	var walk func(v reflect.Value, path string, depth int)
+	walk = func(v reflect.Value, path string, depth int) {
+		if depth > 6 || !v.IsValid() {
+			return
+		}
+		switch v.Kind() {
+		case reflect.Pointer:
+			if v.IsNil() || seen[v.Pointer()] {
+				return
+			}
+			seen[v.Pointer()] = true
+			walk(v.Elem(), path, depth)
+		case reflect.Interface:
+			if v.IsNil() {
+				return
+			}
+			if v.Type().NumMethod() > 0 && v.CanAddr() {
+				fresh := reflect.New(v.Type()).Elem()
+				fresh.Set(v.Elem())
+				if *(*uintptr)(unsafe.Pointer(v.UnsafeAddr())) != *(*uintptr)(unsafe.Pointer(fresh.UnsafeAddr())) {
+					out = append(out, fmt.Sprintf("%s (declared %s, holds a %s)", path, v.Type(), v.Elem().Type()))
+				}
+			}
+			walk(v.Elem(), path, depth+1)
+		case reflect.Struct:
+			for i := 0; i < v.NumField(); i++ {
+				if v.Type().Field(i).IsExported() {
+					walk(v.Field(i), path+"."+v.Type().Field(i).Name, depth)
+				}
+			}
+		case reflect.Slice:
+			for i := 0; i < v.Len(); i++ {
+				walk(v.Index(i), fmt.Sprintf("%s[%d]", path, i), depth)
+			}
+		}
+	}
+	v := reflect.ValueOf(x)
+	walk(v, fmt.Sprintf("%T", x), 0)
+	return out
+}
